@@ -194,9 +194,11 @@ type Event struct {
 }
 
 type WType struct {
-	Name    string   `json:"name"`
-	Kind    string   `json:"kind"` // named | alias | other
-	Enabled []string `json:"enabled,omitempty"`
+	Name string `json:"name"`
+	Kind string `json:"kind"` // named | alias | other
+	// the gengo:* tags of the declaration as Package.Doc reports them (key -> values); whether a generator is
+	// enabled is decided by the model (Model/Whole.v: Dispatch's IsGeneratorEnabled on the merged tags)
+	Tags map[string][]string `json:"tags,omitempty"`
 }
 type WPkg struct {
 	Path   string   `json:"path"`
@@ -434,9 +436,12 @@ func LoadWorld(dir string, entry []string, gens []string) (*World, error) {
 				wt.Kind = "alias"
 			}
 			tags, _ := p.Doc(tn.Pos())
-			for _, g := range gens {
-				if _, ok := tags["gengo:"+g]; ok {
-					wt.Enabled = append(wt.Enabled, g)
+			for k, vs := range tags {
+				if strings.HasPrefix(k, "gengo:") {
+					if wt.Tags == nil {
+						wt.Tags = map[string][]string{}
+					}
+					wt.Tags[k] = append([]string{}, vs...)
 				}
 			}
 			wp.Types = append(wp.Types, wt)
@@ -715,8 +720,17 @@ func CoqWorld(w *World) string {
 		for _, t := range p.Types {
 			kind := map[string]string{"named": "KNamed", "alias": "KAlias", "other": "KOther"}[t.Kind]
 			var tags []string
-			for _, g := range t.Enabled {
-				tags = append(tags, "("+core.Hex("gengo:"+g)+", [[]])")
+			keys := make([]string, 0, len(t.Tags))
+			for k := range t.Tags {
+				keys = append(keys, k)
+			}
+			sort.Strings(keys)
+			for _, k := range keys {
+				var vs []string
+				for _, v := range t.Tags[k] {
+					vs = append(vs, core.Hex(v))
+				}
+				tags = append(tags, "("+core.Hex(k)+", "+core.CoqList(vs)+")")
 			}
 			tys = append(tys, fmt.Sprintf("(mk_ty %s %s %s)", core.Hex(t.Name), kind, core.CoqList(tags)))
 		}
